@@ -363,6 +363,7 @@ class C14(runner.Check):
                 'TM.C14_current', 'TM.C14_current_export', 'TM.C14_roundtrip_markup')
     rule = ('random flat and hierarchical machine descriptions (2-4 top-level states, up to 3 levels, parallel initial '
             'lists, a distinct callback name in every state/transition/machine-level slot, all option combinations, '
+            'machine names incl. trailing/leading colon and space, empty and non-ASCII ones, '
             'internal/reflexive/wildcard/list-source transitions, local transitions of nested states, a quarter of the '
             'machines with diagram support (GraphMachine/HierarchicalGraphMachine, mermaid), 1-3 models incl. '
             'the machine itself, 0-9 later modifications: add_states (single definitions and lists mixing compound and '
